@@ -34,7 +34,7 @@ func expectedFormat(s *openapi3.Schema) []FormatCall {
 		if s.Format == "date-time" {
 			layout := rfc3339NanoLit
 			if f := extString(s, "x-goag-go-time-format"); f != "" {
-				layout = "\"" + f + "\""
+				layout = timeLayoutLit(f)
 			}
 			return []FormatCall{{Callee: "time.Time.Format", Consts: []string{layout}}}
 		}
